@@ -85,6 +85,7 @@ type rwSets struct {
 	typ        model.Type
 	realJump   bool // has a possible jump target other than the next instruction
 	writesIP   bool
+	constTgt   map[uint64]bool // the constant targets among its possible jump targets
 }
 
 func walk(e expr.Expr, f func(expr.Expr)) {
@@ -182,6 +183,10 @@ func setsOf(effs []expr.Effect, typ model.Type, end uint64) rwSets {
 					for i := 0; i < 8; i++ {
 						a |= uint64(v[i]) << (8 * uint(i))
 					}
+					if s.constTgt == nil {
+						s.constTgt = map[uint64]bool{}
+					}
+					s.constTgt[a] = true
 					if a != end {
 						s.realJump = true
 					}
@@ -835,14 +840,27 @@ func (s *sim) runBlock(code *deps.Code, addr uint64, n int, seed uint64, end ...
 			limit = 4 * n
 		}
 		for i := 0; i < limit; i++ {
+			prev := uint64(em.MustIP())
 			if _, err := em.Step(); err != nil {
 				o.err = "step error"
 				break
 			}
 			o.steps++
 			if len(end) == 1 {
-				if ip := uint64(em.MustIP()); ip < addr || ip >= end[0] || ip == addr {
+				ip := uint64(em.MustIP())
+				if ip < addr || ip >= end[0] || ip == addr {
 					break
+				}
+				// Still inside the block. Falling through to the next
+				// instruction is the block going on. A jump that lands
+				// inside the block continues the run only if the landing
+				// address is a constant target of the instruction (then the
+				// "block" has a jump target in its middle); where a register
+				// sends control is no property of the block.
+				if b, ok := code.Address(model.Addr(prev)); ok {
+					if in, ok := b.Address(model.Addr(prev)); ok && uint64(in.End()) != ip && !s.sets[uint64(in.OrigAddr())].constTgt[ip] {
+						break
+					}
 				}
 			}
 		}
